@@ -390,6 +390,58 @@ def write_fault_part(ctx, rnd):
     shutil.rmtree(root, ignore_errors=True)
 
 
+def cannot_create_part(ctx, rnd):
+    """Members whose output file cannot be created (a directory already has that name, the parent is a regular file, the target
+    directory is read-only): nothing is produced for them, so they must not be reported 'Melted' and the exit status must not be 0.
+    Judged on what is on disk afterwards."""
+    root = os.path.join(build.scratch_root(), 'c07cc')
+    cli.mkdir_for_nobody(root)
+    fm = lambda name, sz=20, lvl=1, path=b'', meth='-lh0-': arc.file_member(rnd, meth, name, size=sz, level=lvl, path=path)
+    scen = []
+    for lvl in (0, 1, 2):
+        for meth in ('-lh0-', '-lh5-'):
+            scen.append(('file-named-like-earlier-directory', [fm(b'readme.txt', 20, lvl, b'data/', meth), fm(b'data', 30, lvl, b'', meth), fm(b'tail', 5, lvl)], None, ['xf']))
+            scen.append(('directory-in-place-of-member', [fm(b'small', 5, lvl), fm(b'big.bin', 300, lvl, b'', meth), fm(b'tail', 5, lvl)], ('mkdir', 'big.bin'), ['xf', 'eq']))
+            scen.append(('parent-is-a-regular-file', [fm(b'f', 9, lvl, b'', meth), fm(b'x', 12, lvl, b'f/', meth), fm(b'tail', 5, lvl)], None, ['xf']))
+            scen.append(('read-only-target-directory', [fm(b'a', 9, lvl, b'', meth), fm(b'b', 12, lvl, b'sub/', meth)], ('rodir', 'ro'), ['xfw=ro']))
+    n = 0
+    for tag, ms, pre, modes in scen:
+        for mode in modes:
+            n += 1
+            d = os.path.join(root, 's%d' % n)
+            cli.mkdir_for_nobody(d)
+            a = arc.archive(ms)
+            open(os.path.join(d, 'a.lzh'), 'wb').write(a)
+            os.chmod(os.path.join(d, 'a.lzh'), 0o644)
+            base = d
+            if pre and pre[0] == 'mkdir':
+                cli.mkdir_for_nobody(os.path.join(d, pre[1]))
+            if pre and pre[0] == 'rodir':
+                cli.mkdir_for_nobody(os.path.join(d, pre[1]))
+                os.chmod(os.path.join(d, pre[1]), 0o555)
+                base = os.path.join(d, pre[1])
+            rc, so, se = cli.run_lha(_CLI, [mode, 'a.lzh'], d, as_nobody=True, stdin=b'')
+            ctx.count('cannot_create_runs')
+            ctx.cov['evaluations'] += 1
+            lines = [l for l in so.replace(b'\r', b'\n').split(b'\n') if b'\t- ' in l]
+            anybad = False
+            for x in ms:
+                p = os.path.join(base, x.name.decode())
+                good = os.path.isfile(p) and not os.path.islink(p) and open(p, 'rb').read() == x.plain
+                anybad |= not good
+                final = [l for l in lines if (l.startswith(x.name + b'\t- ') or l.endswith(b'/' + x.name + b'\t- Melted  ') or (b'/' + x.name + b'\t- ') in l) and (b'Melted' in l or b'Failure' in l)]
+                if final and b'Melted' in final[-1] and not good:
+                    ctx.violation('C07-cli-line:x:false-good:cannot-create:' + tag, "'lha %s' printed 'Melted' for %s although no such file with the recorded bytes exists afterwards (%s)"
+                                  % (mode, x.name.decode(), tag), a)
+            if rc < 0 or rc > 255:
+                ctx.violation('C07-cli-abnormal-exit:cannot-create', "'lha %s' ended with %d (%s)" % (mode, rc, tag), a)
+            elif anybad and rc == 0:
+                ctx.violation('C07-cli-exit-status:x:cannot-create:' + tag, "'lha %s' exited 0 although a member's file could not be produced (%s)" % (mode, tag), a)
+            if pre and pre[0] == 'rodir':
+                os.chmod(os.path.join(d, pre[1]), 0o755)
+    shutil.rmtree(root, ignore_errors=True)
+
+
 def burst_part(ctx, exe_enum):
     """Exhaustive (thorough) / sampled (quick) bursts of 1..16 bits on a 6-byte stored member, in-process."""
     x = arc.Member(H.simple_member(b'burst.bin', b'\x13\x37\xc0\xde\x00\xff', level=2), b'\x13\x37\xc0\xde\x00\xff', b'\x13\x37\xc0\xde\x00\xff')
@@ -433,10 +485,11 @@ def run(ctx):
     many_failures_part(ctx)
     sequence_part(ctx, rnd)
     write_fault_part(ctx, rnd)
+    cannot_create_part(ctx, rnd)
     burst_part(ctx, enum)
     ctx.cov['rule'] = ('archive variants (valid; recorded length n+-1/0/2^32-1; every single-bit flip of the recorded CRC; bit flips in member '
                        'data - every byte for small stored members; every truncation of small archives) over members of all 14 methods; three '
-                       'independent readers (read / check / extract) + CLI t and x; several decode operations on the same member of one reader (success only for the operation that saw the whole data; extracted file checked on disk); extraction under write faults (file size limit placed in the '
+                       'independent readers (read / check / extract) + CLI t and x; several decode operations on the same member of one reader (success only for the operation that saw the whole data; extracted file checked on disk); members whose output file cannot be created; extraction under write faults (file size limit placed in the '
                        'first, a middle and the last stdio block of a member), judged on the bytes on disk; distinct by archive bytes; non-trivial = a non-valid variant '
                        'with at least one returned member')
     ctx.assumptions.append('MacBinary members excluded (their delivered bytes differ from the CRC\'d stream by design)')
